@@ -654,7 +654,7 @@ func (x *Exec) step(fr *Frame, st *State, ins ssa.Instruction) {
 		p := x.get(fr, in.X)
 		x.nilCheck(fr, st, p, in.Pos(), "field")
 		lv := derefPtr(p)
-		stt := lv.T.Underlying().(*types.Struct)
+		stt := in.X.Type().Underlying().(*types.Pointer).Elem().Underlying().(*types.Struct)
 		f := stt.Field(in.Field)
 		nl := &LVal{Prefix: lv.Prefix, Ref: lv.Ref, Idx: lv.Idx, Path: lv.Path + "." + f.Name(), T: f.Type()}
 		fr.env[in] = Val{T: in.Type(), C: []*Term{lv.Ref}, LV: nl}
